@@ -7,7 +7,11 @@ import sys, subprocess, os, shutil
 MUTS = {
  # ---- C41 (ssh/certs.go)
  "C41-principals-gt1": ("C41", "ssh/certs.go", "if len(cert.ValidPrincipals) > 0 {", "if len(cert.ValidPrincipals) > 1 {"),                       # pkgtest FAIL
- "C41-validafter-signguard": ("C41", "ssh/certs.go", "after < 0 || unixNow < int64(cert.ValidAfter)", "unixNow < after"),                      # pkgtest ok
+ "C41-validafter-signed-compare": ("C41", "ssh/certs.go", "if unixNow < 0 || uint64(unixNow) < cert.ValidAfter {", "if unixNow < int64(cert.ValidAfter) {"),  # pkgtest ok
+ # regressions of the repaired defects: "REVERT:<commit>" reverse-applies the fix commit; expected: VIOLATION with the original signature
+ "REVERT-C41-T1": ("C41", "REVERT", "35f0e5b", "time-window:validbefore-in-[2^63,2^64-2]-rejected"),
+ "REVERT-C40-M1": ("C40", "REVERT", "bd7db8b", "multialgo:Sign-uses-algorithm-outside-list"),
+ "REVERT-C39-K": ("C39", "REVERT", "189504f", "accepted-inconsistent:outerPubOther"),
  "C41-critical-default-accept": ("C41", "ssh/certs.go", "\t\tfound := false\n\t\tfor _, supp := range c.SupportedCriticalOptions {",
                                  "\t\tfound := len(c.SupportedCriticalOptions) == 0\n\t\tfor _, supp := range c.SupportedCriticalOptions {"),  # pkgtest FAIL
  "C41-authenticate-type": ("C41", "ssh/certs.go", "\tif cert.CertType != UserCert {", "\tif cert.CertType == HostCert {"),                      # pkgtest ok
@@ -40,10 +44,14 @@ def run(name, pkgtest):
     shutil.rmtree(d, ignore_errors=True)
     subprocess.run(["rsync", "-a", "--exclude", ".git", "/repo/", d + "/"], check=True)
     try:
-        p = os.path.join(d, rel)
-        s = open(p).read()
-        assert s.count(old) == 1, (name, s.count(old))
-        open(p, "w").write(s.replace(old, new))
+        if rel == "REVERT":
+            diff = subprocess.run(["git", "-C", "/repo", "show", old, "--", "ssh"], check=True, capture_output=True, text=True).stdout
+            subprocess.run(["patch", "-R", "-p1", "-s"], cwd=d, input=diff, text=True, check=True)
+        else:
+            p = os.path.join(d, rel)
+            s = open(p).read()
+            assert s.count(old) == 1, (name, s.count(old))
+            open(p, "w").write(s.replace(old, new))
         if pkgtest:
             r = subprocess.run(["go1.26", "test", "-count=1", "-timeout", "900s", "./ssh/"], cwd=d,
                                env=dict(os.environ, GOFLAGS="-mod=mod", GOPROXY="off", GOSUMDB="off", GOTOOLCHAIN="local"), capture_output=True, text=True)
@@ -54,6 +62,12 @@ def run(name, pkgtest):
         r = subprocess.run(["bin/check", cid, "quick"], cwd=root,
                            env=dict(os.environ, VERIF_REPO=d, VERIF_EVIDENCE_DIR="/tmp/verif_mut_evidence_c38"), capture_output=True, text=True)
         print(name, "->", cid, "exit", r.returncode, "(expected 1)")
+        if rel == "REVERT":
+            import glob, json
+            sigs = {json.load(open(f))["violation"]["sig"] for f in glob.glob(os.path.join(rdir, "*.json")) if os.path.basename(f) not in before}
+            print("    signatures:", sorted(sigs), "original signature present:", new in sigs)
+            if new not in sigs:
+                r.returncode = 3
         for l in r.stdout.splitlines():
             if l.startswith("VIOLATION") or l.startswith("  what") or l.startswith("INFRA"):
                 print("   ", l[:220])
